@@ -32,6 +32,7 @@ struct Ev
 
 struct Plan
 {
+  int junk = 0;   // index of the byte every fresh heap allocation is filled with (sim::junkHeap)
   int checkKind = 0;          // 0 = equal-to, 1 = greater-than
   double rate = 10, eps = 1;  // expected rate and tolerance (dyadic, so rate +- eps is exact)
   int64_t t0 = 0;             // origin of the sensor clock: first stamp = t0 + first period
@@ -62,7 +63,7 @@ template<class CR>
 Outcome runWorld(const Plan & p, Ctx & c)
 {
   CR cr(p.name, p.rate, p.eps);
-  std::unique_ptr<rc::RateMonitoring> rmPtr(p.viaInitialize ? new rc::RateMonitoring() : new rc::RateMonitoring(p.rate));
+  std::unique_ptr<rc::RateMonitoring> rmPtr(p.viaInitialize ? new rc::RateMonitoring : new rc::RateMonitoring(p.rate));
   if (p.viaInitialize) {rmPtr->initialize(p.rate); SIM_PROBE("monitor_configured_through_initialize");}
 #define rm (*rmPtr)
   model::RateModel m(p.rate);
@@ -434,18 +435,24 @@ struct PropC17
     return p;
   }
 
-  Plan generate(uint64_t index) const
+  // heap contents are an input of the run like any other: every fresh allocation is filled with a byte chosen by the plan
+  Plan generate(uint64_t index) const {Plan p = generate0(index); p.junk = (int)(mix64(master ^ 0x6a756e6bULL, index) % 5); return p;}
+  Outcome execute(const Plan & p, Ctx & c) const {sim::junkHeap(p.junk); return execute0(p, c);}
+  Json toJson(const Plan & p) const {Json j = toJson0(p); j.set("heap_fill_index", p.junk); return j;}
+  Plan fromJson(const Json & j) const {Plan p = fromJson0(j); if (j.has("heap_fill_index")) {p.junk = (int)j["heap_fill_index"].i();} return p;}
+  std::vector<Plan> simpler(const Plan & p) const {std::vector<Plan> out = simpler0(p); if (p.junk != 0) {Plan q = p; q.junk = 0; out.push_back(q);} return out;}
+  Plan generate0(uint64_t index) const
   {
     if (index < scriptedPlans.size()) {return scriptedPlans[index];}
     return randomPlan(mix64(master, index - scriptedPlans.size()));
   }
 
-  Outcome execute(const Plan & p, Ctx & c) const
+  Outcome execute0(const Plan & p, Ctx & c) const
   {
     return p.checkKind == 0 ? runWorld<rc::CheckupEqualToRate>(p, c) : runWorld<rc::CheckupGreaterThanRate>(p, c);
   }
 
-  Json toJson(const Plan & p) const
+  Json toJson0(const Plan & p) const
   {
     Json j = Json::object();
     j.set("checkup", p.checkKind == 0 ? "CheckupEqualToRate" : "CheckupGreaterThanRate").set("check_kind", p.checkKind)
@@ -460,7 +467,7 @@ struct PropC17
     j.set("events", ev);
     return j;
   }
-  Plan fromJson(const Json & j) const
+  Plan fromJson0(const Json & j) const
   {
     Plan p; p.checkKind = (int)j["check_kind"].i(); p.rate = j["expected_rate"].d(); p.eps = j["tolerance"].d();
     p.t0 = j["t0_ns"].i(); p.name = j["name"].s(); p.viaInitialize = j["monitor_via_initialize"].b();
@@ -473,7 +480,7 @@ struct PropC17
     return p;
   }
 
-  std::vector<Plan> simpler(const Plan & p) const
+  std::vector<Plan> simpler0(const Plan & p) const
   {
     std::vector<Plan> out;
     removalCandidates(p.ev, [&](std::vector<Ev> v) {Plan q = p; q.ev = std::move(v); out.push_back(q);});
